@@ -1,6 +1,7 @@
 \* thorough tier, exhaustive: every well-formed list over instants 0..6, answers with and without Retry-After
 CONSTANTS
   ShardLists <- MCAllLists
+  Deployments <- MCDepFew
   Instants = {0, 1, 2, 3, 4, 5, 6}
   Scenes = {"submit"}
   ChainKinds = {"x509", "precert", "precertPreIssuer"}
